@@ -25,6 +25,13 @@ func presets() []scenarioOpts {
 		{NVals: 2, Powers: []int64{20, 20}, Galaxias: "genesis", Heights: 8, Replicas: four, Staking: true},
 		{NVals: 4, Powers: []int64{20, 20, 20, 20}, Galaxias: "never", Heights: 7, Replicas: four, Evidence: true, Reopen: true},
 		{NVals: 4, Powers: []int64{40, 20, 30, 20}, Galaxias: "genesis", Heights: 7, Replicas: four, Evidence: true},
+		// the storage script (directed.go, storageScript): first replica with, then without the snapshot tree; the third one is restarted
+		{NVals: 1, Powers: []int64{20}, Galaxias: "never", Heights: scriptHeights, Replicas: four, HandOnly: true, Long: storageScript()},
+		{NVals: 2, Powers: []int64{20, 20}, Galaxias: "genesis", Heights: scriptHeights, Replicas: []repCfg{all[1], all[6], all[7], all[3]}, HandOnly: true, Long: storageScript()},
+		// validator reports at most heights: equal powers (as in the shipped genesis files), two levels, mixed
+		{NVals: 4, Powers: []int64{20, 20, 20, 20}, Galaxias: "never", Heights: 9, Replicas: four, ValHook: true, ValDensity: 10},
+		{NVals: 5, Powers: []int64{20, 20, 20, 30, 30}, Galaxias: "genesis", Heights: 10, Replicas: four, ValHook: true, ValDensity: 10, HandOnly: true},
+		{NVals: 6, Powers: []int64{20, 40, 20, 40, 20, 40}, Galaxias: "never", Heights: 10, Replicas: six[:5], ValHook: true, ValDensity: 10, Restarts: true},
 	}
 }
 
